@@ -176,6 +176,9 @@ struct Driver {
             if (a) { for (int i = 0; i < 5000 && Acc::sessions(*a).active_session_count() != 0; ++i) usleep(1000); usleep(2000); }
             a.reset(); b.reset(); made.clear();
             vclock::set_ns(0);
+            // jitter: every clock read inside the node advances virtual time a little, as real time would
+            // between two reads within one call (a frozen clock hides "remaining = expiry - now" truncation slips)
+            vclock::set_autostep_ns(c.i("jitter_us", 0) * 1000);
             vrng::seed(static_cast<std::uint64_t>(c.i("rseed", 7)));
             Config cfg{};
             cfg.identity_seed = 0x1234u;
@@ -203,7 +206,7 @@ struct Driver {
              .i("rrot", clampms(raw.key_rotation_interval.count() * 1000)).i("rapow", raw.announce_pow_difficulty).i("rhpow", raw.handshake_pow_difficulty).i("rspow", raw.store_pow_difficulty)
              .i("min", clampms(sc.min_manifest_ttl.count() * 1000)).i("max", clampms(sc.max_manifest_ttl.count() * 1000)).i("deflt", clampms(sc.default_chunk_ttl.count() * 1000))
              .i("rot", clampms(sc.key_rotation_interval.count() * 1000)).i("apow", sc.announce_pow_difficulty).i("hpow", sc.handshake_pow_difficulty).i("spow", sc.store_pow_difficulty)
-             .i("cleanup", clampms(sc.cleanup_interval.count() * 1000));
+             .i("cleanup", clampms(sc.cleanup_interval.count() * 1000)).i("tol", c.i("jitter_us", 0) ? 20 : 0);
             fin(e);
         } else if (op == "store") {
             long id = c.i("c"), pb = c.i("b"); long long ttl = c.i("ttl");
